@@ -222,6 +222,36 @@ sys.exit(1 if bad else 0)
 '''
 
 
+REPLAY_RHS = '''
+import sympy
+from chempy import Reaction, ReactionSystem
+from chempy.kinetics.ode import get_odesys
+from chempy.kinetics.rates import MassAction
+from chempy.units import SI_base_registry
+MA = lambda key: MassAction([3.0], unique_keys=(key,))
+systems = [
+    [({"A": 1}, {"B": 1}, MA("k1")), ({"B": 1, "C": 1}, {"A": 1}, "k2")],
+    [({"A": 2}, {"C": 1}, "k1"), ({"C": 1}, {"A": 1, "B": 1}, MA("k2")), ({"A": 1, "B": 1}, {"C": 1}, "k3")],
+    [({"A": 1}, {"B": 1}, "k1"), ({"B": 2}, {"C": 1}, "k2"), ({"C": 1}, {"A": 2}, MA("k3"))],
+]
+spec = systems[%(si)d]
+rsys = ReactionSystem([Reaction(dict(r_), dict(p_), par) for r_, p_, par in spec], "A B C")
+odesys, extra = get_odesys(rsys, include_params=False, unit_registry=SI_base_registry)
+P = dict(zip(odesys.param_names, odesys.params)); Y = dict(zip(odesys.names, odesys.dep))
+bad = []
+for key in "ABC":
+    tot = 0
+    for i, (r_, p_, par) in enumerate(spec):
+        rate = P["k%%d" %% (i + 1)]
+        for sk, nu in r_.items(): rate = rate * Y[sk] ** nu
+        tot = tot + (p_.get(key, 0) - r_.get(key, 0)) * rate
+    got = odesys.exprs[list(odesys.names).index(key)]
+    if sympy.expand(got - tot) != 0: bad.append("d[%%s]/dt = %%s, N^T r = %%s" %% (key, got, tot))
+for b in bad: print("MISMATCH", b)
+sys.exit(1 if bad else 0)
+'''
+
+
 def task_p_units():
     from chempy import Reaction, ReactionSystem
     from chempy.kinetics.ode import get_odesys
@@ -261,6 +291,52 @@ def task_p_units():
             else:
                 viol.append(dict(key="p_units:%s:%d" % (kind, n), desc="order %d %s: p_units mismatch (%s)" % (n, kind, r), replay_src=REPLAY_PU,
                                  soft=(kind != "arrhenius")))
+    # systems mixing unique-key expressions and plain NAMED parameters, built with a registry: the right-hand side over the parameter symbols
+    # is N^T r with r_i = (its own parameter) * prod c^nu, and every parameter's unit is concentration^(1-order)/time
+    from vlib.s2z import Conv
+
+    def MA(key):
+        return MassAction([3], unique_keys=(key,))
+
+    systems = [
+        [({"A": 1}, {"B": 1}, MA("k1")), ({"B": 1, "C": 1}, {"A": 1}, "k2")],
+        [({"A": 2}, {"C": 1}, "k1"), ({"C": 1}, {"A": 1, "B": 1}, MA("k2")), ({"A": 1, "B": 1}, {"C": 1}, "k3")],
+        [({"A": 1}, {"B": 1}, "k1"), ({"B": 2}, {"C": 1}, "k2"), ({"C": 1}, {"A": 2}, MA("k3"))],
+    ]
+    for si, spec in enumerate(systems):
+        ob += 1
+        try:
+            rsys = ReactionSystem([Reaction(dict(r_), dict(p_), par) for r_, p_, par in spec], "A B C")
+            odesys, extra = get_odesys(rsys, include_params=False, unit_registry=reg)
+            P = dict(zip(odesys.param_names, odesys.params))
+            Y = dict(zip(odesys.names, odesys.dep))
+            conv = Conv()
+            conds = [z3.BoolVal(list(odesys.param_names) == ["k%d" % (i + 1) for i in range(len(spec))])]
+            for key in "ABC":
+                tot = 0
+                for i, (r_, p_, par) in enumerate(spec):
+                    rate = P["k%d" % (i + 1)]
+                    for sk, nu in r_.items():
+                        rate = rate * Y[sk] ** nu
+                    tot = tot + (p_.get(key, 0) - r_.get(key, 0)) * rate
+                conds.append(conv(odesys.exprs[list(odesys.names).index(key)]) == conv(tot))
+            pu = dict(zip(odesys.param_names, extra["p_units"]))
+            for i, (r_, p_, par) in enumerate(spec):
+                n_ = sum(r_.values())
+                conds.append(eq_term(pu["k%d" % (i + 1)], monomial(reg, (3 * (n_ - 1), 0, -1, 0, 0, 1 - n_))))
+            sv = z3.Solver()
+            sv.set("timeout", 20000)
+            sv.add(*assum)
+            sv.add(z3.Not(z3.And(*conds)))
+            r = str(sv.check())
+            q += 1
+        except Exception as e:
+            r = "exc %r" % (e,)
+        if r == "unsat":
+            di += 1
+        else:
+            viol.append(dict(key="registry_rhs:%d" % si, desc="system %d with a unit registry: right-hand side / parameter units mismatch (%s)" % (si, r),
+                             replay_src=REPLAY_RHS % dict(si=si), soft=True))
     return dict(engine="Z", functions=[env.describe(get_odesys)], obligations=ob, discharged=di, violations=viol, queries=q, twin="n/a",
                 bounds="orders 1..3, MassAction/Arrhenius/Eyring with unique keys, all positive base-unit scales",
                 status="violation" if viol else "discharged", sample={"reaction": "2 A + B -> C", "param": "MassAction(Arrhenius(unique_keys=('A1','E1')))"})
